@@ -5,6 +5,7 @@
 (* one-character strings, a path a sequence of names, a pattern a sequence of segment patterns, *)
 (* a segment pattern a sequence of atoms                                                        *)
 (*    [k |-> "lit", c |-> "a"] | [k |-> "star"] | [k |-> "alt", alts |-> <<name, ...>>]          *)
+(*    | [k |-> "any"] (the `?`) | [k |-> "class", set |-> <<characters>>] (`[abc]`, `[a-c]`)     *)
 (* and the whole-segment `**` is the one-atom segment <<[k |-> "dstar"]>>.                       *)
 (* The matching rules are those of the library spok uses (doublestar): `*` matches any run of    *)
 (* characters of one segment (a leading dot included), `**` as a whole segment matches zero or   *)
@@ -24,6 +25,8 @@ SegMatch(name, pat) ==
   ELSE LET a == Head(pat) IN
     CASE a.k = "lit"  -> name # <<>> /\ Head(name) = a.c /\ SegMatch(Tail(name), Tail(pat))
       [] a.k = "star" -> \E i \in 0..Len(name) : SegMatch(SubSeq(name, i + 1, Len(name)), Tail(pat))
+      [] a.k = "any"  -> name # <<>> /\ SegMatch(Tail(name), Tail(pat))                       \* ?
+      [] a.k = "class" -> name # <<>> /\ Head(name) \in SeqRange(a.set) /\ SegMatch(Tail(name), Tail(pat))   \* [abc], [a-c] expanded
       [] a.k = "alt"  -> \E j \in DOMAIN a.alts :
                             LET alt == a.alts[j] IN
                             /\ Len(alt) <= Len(name) /\ SubSeq(name, 1, Len(alt)) = alt
